@@ -49,8 +49,9 @@ func init() {
 		}
 	}
 	syscall.Setrlimit(syscall.RLIMIT_AS, &lim)
-	// make the collector return the transient 1.2 GB slices promptly
-	//debug.SetMemoryLimit(3 << 30)
+	// (No debug.SetMemoryLimit: with a soft limit the scavenger hands the
+	// transient 1.2 GB slices back to the OS at once and every next one is
+	// page-faulted in again — ten times the system time for nothing.)
 }
 
 var slowLog = os.Getenv("C15_SLOWLOG") != ""
